@@ -482,6 +482,7 @@ def execute(sim, scn):
 
     armed = {}
     senderrs = []  # (t, position in the event log, destination)
+    failed_sends = {}  # datagram whose sendmsg() failed -> position of the (first) failure in the event log
     net_sendmsg = sim.net.sendmsg
 
     def failing_sendmsg(sock, data, src_ip, dst):
@@ -493,6 +494,7 @@ def execute(sim, scn):
             sim.net.count("fault.senderr")
             sim.log("net", "senderr", fmt((dst[0], dst[1])), a[1], data.hex())
             senderrs.append((loop.now, len(sim.events), (dst[0], dst[1])))
+            failed_sends.setdefault(bytes(data), len(sim.events))
             sim.probe("sendmsg_failed")
             raise OSError(a[1], "injected sendmsg failure")
         return net_sendmsg(sock, data, src_ip, dst)
@@ -704,6 +706,21 @@ def execute(sim, scn):
                           or (e["_txpos"] > cpos and e["msg"]["payload"].endswith(b";last"))]
                 # (b"broken": what a resource that has failed for good answers to every request, the observer's later
                 # requests included -- responses, not notifications)
+                # (the piggy-backed first response repeated for a late copy of the registering request is the message
+                # layer's answer to a duplicate -- a copy of what it had tried to send, not a notification)
+                def failed_before(e):
+                    return e["data"] in failed_sends and failed_sends[e["data"]] < e["_txpos"]
+                dup_answers = [e for e in later if failed_before(e) and e["msg"]["type"] == rc.ACK]
+                if dup_answers:
+                    sim.probe("failed_first_response_repeated_for_duplicate_request")
+                    later = [e for e in later if e not in dup_answers]
+                revived = [e for e in later if failed_before(e)]
+                if revived:
+                    # not held back by NSTART: its first transmission was attempted and failed in sendmsg() (which ended
+                    # the registration, or happened after its end), and yet it is on the wire afterwards
+                    sim.violation("C08/notification-transmitted-after-its-failed-send-ended-the-registration",
+                                  dict(ident, cause=how, t_end=t_c, later=[[e["t"], rc.summary(e["msg"])] for e in revived][:5]))
+                    later = [e for e in later if not failed_before(e)]
                 if later or len(enders) > allowed:
                     rendered_before = all(e["_rpos"] is not None and e["_rpos"] < cpos for e in later)
                     sim.violation("C08/backlogged-notification-sent-after-end" if (later and rendered_before)
